@@ -207,6 +207,9 @@ pub fn run(args: &[String]) {
                 (vec![("C".into(), 0, 6), ("H".into(), 0, 12), ("O".into(), 0, 6)], Req::I32(5), 1, 22.989218),
                 (vec![("Ar".into(), 0, 3)], Req::I32(4), 1, PROTON),
                 (vec![("Ca".into(), 0, 1), ("C".into(), 0, 1), ("O".into(), 0, 3)], Req::I32(6), 1, PROTON),
+                // requests that resolve to exactly one peak (fixed 1; a fraction the first peak alone satisfies)
+                (vec![("C".into(), 0, 6), ("H".into(), 0, 12), ("O".into(), 0, 6)], Req::Usize(1), 1, PROTON),
+                (vec![("H".into(), 0, 2), ("O".into(), 0, 1)], Req::F32(0.5), 0, PROTON),
             ];
             let stateless: Vec<Value> = pool.iter().map(|(e, r, z, cr)| {
                 let c = build(e, false);
